@@ -154,6 +154,8 @@ def check_cases(cases: list[dict], rep: Report, known: dict) -> None:
     work = []
     worst = (0.0, None)
     for c in cases:
+        if rep.stop():
+            break
         e = wire.build_raw(c["e"])
         model_text = c["e"]
         if c.get("reuse") is not None:
@@ -191,7 +193,7 @@ def check_cases(cases: list[dict], rep: Report, known: dict) -> None:
                             repeated = (len(evs), ev)
                         seen.add(t)
                 warned = True
-            r = call(loop, timeout=120)
+            r = call(loop, timeout=30 if rep.tier == "quick" else 120)
         rep.case((c["e"],), len(evs) > n)
         rep.count("origin", c["origin"].split(":")[0])
         rep.count("size", str(min(n // 10 * 10, 400)))
@@ -246,6 +248,8 @@ def check_cases(cases: list[dict], rep: Report, known: dict) -> None:
     # small inputs through the public API: no warning
     small = [c for c in cases if len(c["e"].split()) <= 40][:300]
     for c in small:
+        if rep.stop():
+            break
         e = wire.build_raw(c["e"])
         if wire.size(e) > 20:
             continue
